@@ -182,3 +182,7 @@ pub fn verif_parse_usize_unwrap(s: &str) -> (r: usize)
 // HashSet::is_disjoint (std): no common element
 pub assume_specification<T: std::cmp::Eq + std::hash::Hash, S: std::hash::BuildHasher, A: std::alloc::Allocator> [std::collections::HashSet::<T, S, A>::is_disjoint] (a: &HashSet<T, S, A>, b: &HashSet<T, S, A>) -> (r: bool)
     ensures r == a@.disjoint(b@);
+
+// ToOwned for Clone types (std blanket impl): to_owned() is clone()
+pub assume_specification<T: Clone> [<T as std::borrow::ToOwned>::to_owned] (t: &T) -> (r: T)
+    ensures cloned::<T>(*t, r);
